@@ -309,7 +309,7 @@ def classify_bf(got, want):
 def classify_lookup(case, got, want):
     if isinstance(got, Err) or isinstance(want, Err):
         return "lookup:argument-errors"
-    if got == "" and "" in case["tags"] and want != "":
+    if got == "" and "" in case["tags"] and want != "" and case.get("_agrees_without_empty_tags"):
         return "lookup:empty-tag-matched-after-range-truncated-away"
     if want == 0:
         return "lookup:returns-tag-instead-of-default"
@@ -341,6 +341,12 @@ def oracle_case(case):
         dr, dt, dk = case["default_range"], case["default_tag"], case["default"]
         got, want = impl_lookup(h, tags, dr, dt, dk), ref_lookup(parsed, tags, dr, dt, dk == "none")
         if got != want:
+            if got == "" and "" in tags:
+                # the specific defect "an offered '' is returned once a range has been truncated away": without the
+                # empty offers the implementation agrees with the statement
+                t2 = [t for t in tags if t != ""]
+                case = dict(case, _agrees_without_empty_tags=(impl_lookup(h, t2, dr, dt, dk) ==
+                                                              ref_lookup(parsed, t2, dr, dt, dk == "none")))
             return (classify_lookup(case, got, want),
                     "AcceptLanguageValidHeader(%r).lookup(%r, default_range=%r, default_tag=%r, default=<%s>) = %r, "
                     "RFC 4647 3.4 reading gives %r (0 = the default object)" % (text, tags, dr, dt, dk, got, want))
@@ -463,7 +469,7 @@ def run(ctx):
 
     # ---------------------------------------------------------------- correspondence
     rng = ctx.sub_rng("corr")
-    n = ctx.scale(700, 6000)
+    n = ctx.scale(1500, 8000)
     bf_cases, lk_cases = [], []
     for i in range(n):
         elems, tags, dr, dt, dk = rand_case_inputs(rng)
@@ -508,6 +514,28 @@ def run(ctx):
         else:
             ctx.broken.append("correspondence lookup-nohdr: model and implementation disagree on %s" % json.dumps(case))
 
+    # the sequence of range texts the real loop compares offers with (observed through spy tags) against the
+    # specification function `truncations` itself (Spec/C05_Rfc4647.v), which C05_best_match_truncations relates to the model
+    tr_cases = []
+    seen = set()
+    for case in itertools.chain(trunc_cases(ctx.scale(4, 5)),
+                                ({"kind": "trunc", "range": rand_case(rng, rand_range(rng, 6)), "via_default_range": bool(i % 2)}
+                                 for i in range(ctx.scale(150, 1500)))):
+        key = (case["range"], case.get("via_default_range", False))
+        if key in seen:
+            continue
+        seen.add(key)
+        tr_cases.append((cstr(case["range"]), observe_truncations(case["range"], case.get("via_default_range", False)), case))
+    bad = ctx.corr("truncations", IMPORTS + ["Webob.Spec.C05_Rfc4647"],
+                   "(fun r => VList (map VStr (truncations (lower r))))", tr_cases, in_type="str")
+    for i in bad[:8]:
+        case = tr_cases[i][2]
+        r = oracle_case(case)
+        if r:
+            ctx.fail(r[0], r[1], case, True, "corr")
+        else:
+            ctx.broken.append("correspondence truncations: specification and implementation disagree on %s" % json.dumps(case))
+
     # ---------------------------------------------------------------- oracle: exhaustive small universes
     cnt = nt = 0
     for case in exhaustive_cases(ctx.scale(2, 3), ctx.scale(2, 2), ctx.thorough):
@@ -522,7 +550,7 @@ def run(ctx):
 
     # ---------------------------------------------------------------- oracle: random, both entry points
     r2 = ctx.sub_rng("oracle")
-    m = ctx.scale(25000, 400000)
+    m = ctx.scale(40000, 500000)
     nontriv = 0
     for i in range(m):
         elems, tags, dr, dt, dk = rand_case_inputs(r2)
